@@ -289,21 +289,24 @@ CORPUS_SEQ = [
 
 def run(ctx):
     quick = ctx.tier == 'quick'
-    cfgs = QUICK if quick else ALL
+    cfgs = ALL
     ctx.cov['rule'] = (
-        'workload stream: seeded register-machine programs (3-7 constructors, then %s operations drawn from 60 kinds: '
+        'workload stream: seeded register-machine programs (3-7 constructors, then %s operations drawn from 63 kinds: '
         'Array/List/Table/Tree/Tuple/String/Int/Float/user-type construction, push/push_at/pop/pop_at/get/set/mem/rem/'
         'sort/sort_by/resize/concat/append/assign/copy/swap/cmp/hash, forward and backward iteration, slice/reverse/zip/'
         'enumerate/filter/map/range views, print_to formatting of every conversion class, scan_from round trip, Function '
-        'call, try/throw/catch with propagation through frames and through a non-matching inner handler, del/drop, forced '
-        'collections) interpreted by harness/config_workload.c, which maps every argument into the contract of the call it '
-        'makes; each program runs on the library built in %d configurations of {checks, CELLO_NDEBUG} x {cache, '
-        'CELLO_CACHE=0} x {GC, CELLO_NGC} x {O0,O2,O3} and the transcripts are compared byte for byte. A program is '
-        'non-trivial when at least 8 operations had an effect (did not print "-"), of at least 5 different kinds, and no '
-        'exception escaped; distinct = distinct transcripts. array stream: operation sequences on an Array of Int '
-        '(in-contract in every build; with out-of-range indices only in the checked builds) compared with the extracted '
-        'Coq model under the matching checks flag and with the configuration-free specification.'
-        % ('20-70' if quick else '20-120', len(cfgs)))
+        'call, try/throw/catch with propagation through frames and through a non-matching inner handler, worker threads '
+        '(own collector and exception context), Mutex, File write/reopen/read, del/drop, forced collections) interpreted '
+        'by harness/config_workload.c, which maps every argument into the contract of the call it makes; the library is '
+        'built in all 24 configurations of {checks, CELLO_NDEBUG} x {cache, CELLO_CACHE=0} x {GC, CELLO_NGC} x {O0,O2,O3}; '
+        '%s; transcripts are compared byte for byte. A program is non-trivial when at least 8 operations had an effect '
+        '(did not print "-"), of at least 5 different kinds, and no exception escaped; distinct = distinct transcripts. '
+        'array stream: operation sequences on an Array of Int (in-contract in every build; with out-of-range indices only '
+        'in the checked builds) compared with the extracted Coq model under the matching checks flag and with the '
+        'configuration-free specification.'
+        % ('20-70' if quick else '20-120',
+           'the corpus and the first part of each stream run on all 24, the rest on a pairwise-covering six (every pair of '
+           'settings of two switches occurs together; includes all-on and all-off)' if quick else 'every program runs on all 24'))
     ctx.assumptions += [
         'compiler (gcc -O0/-O2/-O3), ABI/header layout, method cache and collector are exercised by running, not modelled: '
         'agreement is established on the generated programs only',
@@ -332,8 +335,9 @@ def run(ctx):
     with ThreadPoolExecutor(max_workers=2) as ex:
         for tag, h in ex.map(build, cfgs):
             hs[tag] = h
-    ctx.notes.append('built %d configurations in %.1fs: %s' % (len(hs), time.time() - t0, ' '.join(hs)))
-    tags = [cfg_tag(c) for c in cfgs]
+    ctx.notes.append('built %d configurations in %.1fs' % (len(hs), time.time() - t0))
+    all_tags = [cfg_tag(c) for c in cfgs]
+    pair_tags = [cfg_tag(c) for c in QUICK]
 
     # every binary reports what it was built as: the flags really took effect
     for c in cfgs:
@@ -355,44 +359,47 @@ def run(ctx):
                 outs[tag] = lines
         return outs
 
-    def run_wl(cases):
-        outs = run_cfgs(cases, tags)
-        return [SEP.join('%s=%s' % (t, outs[t][i]) for t in tags) for i in range(len(cases))]
-
-    def run_seq(cases):
-        if drv is None:          # only in-contract histories are generated in this mode
+    def mk(tags, suffix):
+        def run_wl(cases):
             outs = run_cfgs(cases, tags)
             return [SEP.join('%s=%s' % (t, outs[t][i]) for t in tags) for i in range(len(cases))]
-        fires = ctx.run_lines(drv, cases, args=['fires'])[1]
-        inc = [c for c, f in zip(cases, fires) if f == '0']
-        checked = [t for t in tags if t.startswith('d')]
-        unchecked = [t for t in tags if t.startswith('N')]
-        o1 = run_cfgs(cases, checked) if checked else {}
-        o2 = run_cfgs(inc, unchecked) if (unchecked and inc) else {}
-        res = []
-        k = 0
-        for i, (c, f) in enumerate(zip(cases, fires)):
-            parts = ['%s=%s' % (t, o1[t][i]) for t in checked]
-            if f == '0':
-                parts += ['%s=%s' % (t, o2[t][k]) for t in unchecked]
-                k += 1
-            res.append(SEP.join(parts))
-        return res
 
-    def run_seq_model(cases):
-        m0 = ctx.run_lines(drv, cases, args=['model0'])[1]
-        m1 = ctx.run_lines(drv, cases, args=['model1'])[1]
-        return ['model0=%s%smodel1=%s' % (a, SEP, b) for a, b in zip(m0, m1)]
+        def run_seq(cases):
+            if drv is None:          # only in-contract histories are generated in this mode
+                return run_wl(cases)
+            fires = ctx.run_lines(drv, cases, args=['fires'])[1]
+            inc = [c for c, f in zip(cases, fires) if f == '0']
+            checked = [t for t in tags if t.startswith('d')]
+            unchecked = [t for t in tags if t.startswith('N')]
+            o1 = run_cfgs(cases, checked) if checked else {}
+            o2 = run_cfgs(inc, unchecked) if (unchecked and inc) else {}
+            res = []
+            k = 0
+            for i, (c, f) in enumerate(zip(cases, fires)):
+                parts = ['%s=%s' % (t, o1[t][i]) for t in checked]
+                if f == '0':
+                    parts += ['%s=%s' % (t, o2[t][k]) for t in unchecked]
+                    k += 1
+                res.append(SEP.join(parts))
+            return res
 
-    run_seq_spec = lambda cs: ctx.run_lines(drv, cs, args=['spec'])[1]
+        def run_seq_model(cases):
+            m0 = ctx.run_lines(drv, cases, args=['model0'])[1]
+            m1 = ctx.run_lines(drv, cases, args=['model1'])[1]
+            return ['model0=%s%smodel1=%s' % (a, SEP, b) for a, b in zip(m0, m1)]
 
-    dw = vlib.Differential(ctx, 'workload', run_wl, None, None, wl_oracle, None, wl_nontrivial, split, join)
-    if drv is not None:
-        ds = vlib.Differential(ctx, 'array', run_seq, run_seq_model, run_seq_spec, seq_oracle, seq_corr,
-                               lambda c, i: len(c.split(' ')) >= 4, split, join)
-    else:
-        ds = vlib.Differential(ctx, 'array', run_seq, None, None, wl_oracle, None,
-                               lambda c, i: len(c.split(' ')) >= 4, split, join)
+        run_seq_spec = lambda cs: ctx.run_lines(drv, cs, args=['spec'])[1]
+        dw = vlib.Differential(ctx, 'workload' + suffix, run_wl, None, None, wl_oracle, None, wl_nontrivial, split, join)
+        if drv is not None:
+            ds = vlib.Differential(ctx, 'array' + suffix, run_seq, run_seq_model, run_seq_spec, seq_oracle, seq_corr,
+                                   lambda c, i: len(c.split(' ')) >= 4, split, join)
+        else:
+            ds = vlib.Differential(ctx, 'array' + suffix, run_seq, None, None, wl_oracle, None,
+                                   lambda c, i: len(c.split(' ')) >= 4, split, join)
+        return dw, ds
+
+    dw, ds = mk(all_tags, '')                 # all 24 builds
+    dwp, dsp = mk(pair_tags, '_pairwise')     # the covering six (quick tier: bulk of the streams)
 
     rp = os.environ.get('VERIF_REPLAY')
     if rp:
@@ -403,7 +410,7 @@ def run(ctx):
         elif case:
             dw.feed([case])
         else:
-            dw.feed(CORPUS_WL); ds.feed(CORPUS_SEQ)
+            dw.feed(CORPUS_WL); ds.feed(CORPUS_SEQ if drv is not None else CORPUS_SEQ[:2])
         for d in (dw, ds):
             for x in d.oracle_fail + d.corr_fail:
                 print('REPLAY: %s' % x[4])
@@ -415,19 +422,27 @@ def run(ctx):
 
     dw.feed(CORPUS_WL, 'corpus')
     ds.feed(CORPUS_SEQ if drv is not None else CORPUS_SEQ[:2], 'corpus')
-    nwl = 1200 if quick else 12000
+    nwl = 1500 if quick else 12000
     maxops = 70 if quick else 120
     cases = [gen_wl(ctx.rng, ctx.rng.randrange(20, maxops)) for _ in range(nwl)]
-    for i in range(0, nwl, 500):
-        dw.feed(cases[i:i + 500])
     nseq = 1500 if quick else 30000
     scases = [gen_seq(ctx.rng, ctx.rng.randrange(3, 40), drv is None or ctx.rng.random() < .7) for _ in range(nseq)]
-    for i in range(0, nseq, 2000):
-        ds.feed(scases[i:i + 2000])
+    if quick:
+        dw.feed(cases[:300]); ds.feed(scases[:300])
+        for i in range(300, nwl, 600):
+            dwp.feed(cases[i:i + 600])
+        dsp.feed(scases[300:])
+    else:
+        for i in range(0, nwl, 500):
+            dw.feed(cases[i:i + 500])
+        for i in range(0, nseq, 2000):
+            ds.feed(scases[i:i + 2000])
 
-    ctx.cov['configurations'] = tags
-    ctx.cov['workload_programs'] = dw.ncases
-    ctx.cov['array_histories'] = ds.ncases
+    ctx.cov['configurations'] = all_tags
+    ctx.cov['configurations_pairwise'] = pair_tags if quick else []
+    ctx.cov['workload_programs'] = dw.ncases + dwp.ncases
+    ctx.cov['workload_programs_on_all_24'] = dw.ncases
+    ctx.cov['array_histories'] = ds.ncases + dsp.ncases
 
     def extra_wl(dd):
         dd.feed([gen_wl(ctx.rng, ctx.rng.randrange(20, maxops)) for _ in range(2 * nwl)])
@@ -436,3 +451,6 @@ def run(ctx):
         dd.feed([gen_seq(ctx.rng, ctx.rng.randrange(3, 40), True) for _ in range(5 * min(nseq, 2000))])
     dw.report(extra_wl)
     ds.report(extra_seq)
+    if quick:
+        dwp.report(extra_wl)
+        dsp.report(extra_seq)
